@@ -97,5 +97,12 @@ func c07(r *h.Result, rng *h.Rng, tier string, replay string) error {
 	if tier != "quick" {
 		nx = 10000
 	}
-	return c07TextX(r, rng.Fork(), nx)
+	if err := c07TextX(r, rng.Fork(), nx); err != nil {
+		return err
+	}
+	mx := 400
+	if tier != "quick" {
+		mx = 6000
+	}
+	return c07SemX(r, rng.Fork(), mx)
 }
